@@ -17,7 +17,7 @@ func init() {
 		ID: "C07",
 		Explanation: `R07.1 no division by a possibly-zero quotient: in bsdiff, bsdiff/lrufile and pwr/rediff an integer divisor whose definition is a floor quotient, a subtraction or a len() needs a non-zero fact on every path (constants and ceil-division results are fine; divisors that are plain fields or parameters are recorded as assumed non-zero, never as alarms); ` +
 			`R07.2 the optimizer keeps the per-file framing and copies unmapped ops verbatim; R07.3 the partition count handed to the suffix sorter is either 1 or was compared with the length of the old buffer it partitions; R12.1 (shared) every bsdiff series ends with an Eof control. ` +
-			`The C10 wire-taint obligations cover the mapped target index. NOT decided: equality of results, termination of the scanner, tuning parameters other than through R07.1/R07.3.`,
+			`The C10 wire-taint obligations cover the mapped target index. R07.4 pool read-seekers are positioned before they are read linearly; R07.5 every DecompressWire takes the Compression field (or getter) of a header message read from that stream, not assigned between the read and the use. NOT decided: equality of results, termination of the scanner, tuning parameters other than through R07.1/R07.3.`,
 		Run: runC07,
 	})
 	register(&Property{
@@ -25,7 +25,7 @@ func init() {
 		Explanation: `R12.1 end of series on every path: writeMessages and the empty-new-file shortcut of Do end with a Control whose Eof is true; R07.1 (shared) partition arithmetic cannot divide by zero; ` +
 			`R12.2 old-offset accounting in IndividualPatchContext.Apply: the cache is positioned at OldOffset before the add phase and every success path advances OldOffset by len(Add) (when non-empty) and by Seek; ` +
 			`R12.3 the read cache's slot bookkeeping: a chunk is stored in a slot whose allocation is free, the slot is marked, eviction (registered with the LRU) frees exactly the evicted chunk's slot, Reset frees all slots and purges; ` +
-			`R15.3 (shared) matches reach the writer through a single sender in block order; R12.4 suffix sorting and searching only on non-empty input; R12.5 the scan-block count and scan-block size (found by role in the worker literal) are each computed from the other whenever they are set, or the other is recomputed before the workers start; R16.8 (shared) helper goroutines are waited for only after they were released; R10.swallow (shared) a failed chunk/storage call never ends in success. NOT decided: that add+copy tile the new file, the suffix-array search, index arithmetic of the cache's Read.`,
+			`R15.3 (shared) matches reach the writer through a single sender in block order; R12.4 suffix sorting and searching only on non-empty input; R12.5 the scan-block count and scan-block size (found by role in the worker literal) are each computed from the other whenever they are set, or the other is recomputed before the workers start; R16.8 (shared) helper goroutines are waited for only after they were released; R10.swallow (shared) a failed chunk/storage call never ends in success. R12.7 a success return of getChunk that does not pass lru.Get depends only on fields that Reset assigns on every path. NOT decided: that add+copy tile the new file, the suffix-array search, index arithmetic of the cache's Read.`,
 		Run: runC12,
 	})
 }
@@ -339,6 +339,7 @@ func runC07(c *core.Ctx) {
 	ruleEndOfSeries(c, "R12.1")
 	ruleNonEmptySuffixSort(c, "R12.4")
 	ruleRewindBeforeLinearRead(c, "R07.4")
+	ruleDecompressAsDeclared(c, "R07.5")
 }
 
 // ruleNonEmptySuffixSort (R12.4): the suffix sorter and the suffix search index their input unconditionally
@@ -411,7 +412,7 @@ func ruleRewindBeforeLinearRead(c *core.Ctx, rule string) {
 	c.Rule(rule, "pool read-seekers are positioned before they are read linearly")
 	n := 0
 	for _, fn := range c.P.SrcFuncs() {
-		if !strings.HasSuffix(core.PkgPathOf(fn), "/pwr/rediff") && !strings.HasSuffix(core.PkgPathOf(fn), "/pwr") && !strings.HasSuffix(core.PkgPathOf(fn), "/pwr/patcher") && !strings.HasSuffix(core.PkgPathOf(fn), "/pwr/bowl") {
+		if !strings.HasPrefix(core.PkgPathOf(fn), core.Mod) || strings.HasSuffix(core.PkgPathOf(fn), "/wtest") {
 			continue
 		}
 		core.Instrs(fn, func(in ssa.Instruction) {
@@ -571,6 +572,7 @@ func runC12(c *core.Ctx) {
 	ruleNoSwallowedLayerErrors(c, "R10.swallow", moduleErrCallee, "/pwr", "/pwr/patcher", "/pwr/bowl", "/pwr/rediff", "/pwr/overlay", "/wire", "/wsync", "/bsdiff", "/bsdiff/lrufile", "/multiread", "/ctxcopy")
 	ruleNoJoinBeforeRelease(c, "R16.8", 3, 1, "/bsdiff")
 	ruleBlockLayoutCoupled(c, "R12.5")
+	ruleCacheBypassIsForgotten(c, "R12.7")
 	c.Rule("R12.1", "end-of-series on every path")
 	c.Rule("R07.1", "no division by a possibly-zero quotient (shared)")
 	c.Rule("R12.2", "old offset accounting in Apply")
@@ -1111,4 +1113,92 @@ func ordinalOf(fn *ssa.Function, in ssa.Instruction, pred ipred) string {
 		}
 	}
 	return "?"
+}
+
+// ruleDecompressAsDeclared is R07.5 (shared with C13 and C01): what follows a header in a stream is compressed
+// the way that header says. Every DecompressWire(r, comp) takes comp from the Compression field of a message
+// that was read from the stream, and that field has not been assigned between the read and the use (an
+// optimizer that recycles the input header for its output and then decompresses "with the header's
+// compression" reads its input with the output's settings).
+func ruleDecompressAsDeclared(c *core.Ctx, rule string) {
+	c.Rule(rule, "input streams are decompressed as their own header declares")
+	n := 0
+	for _, fn := range c.P.SrcFuncs() {
+		if !strings.HasPrefix(core.PkgPathOf(fn), core.Mod) {
+			continue
+		}
+		core.Instrs(fn, func(in ssa.Instruction) {
+			cl, ok := in.(*ssa.Call)
+			if !ok || !strings.HasSuffix(core.CalleeName(cl), "pwr.DecompressWire") || len(cl.Call.Args) != 2 {
+				return
+			}
+			n++
+			comp := cl.Call.Args[1]
+			var hdr ssa.Value
+			var load *ssa.UnOp
+			for _, o := range []ssa.Value{core.StripConv(comp)} {
+				if ld, ok := o.(*ssa.UnOp); ok && ld.Op == token.MUL {
+					if b, nme, ok := core.FieldOf(ld.X); ok && nme == "Compression" {
+						hdr, load = b, ld
+					}
+				}
+			}
+			if hdr == nil {
+				// through the generated getter
+				if gc, ok := core.StripConv(comp).(*ssa.Call); ok && strings.HasSuffix(core.CalleeName(gc), ").GetCompression") && len(gc.Call.Args) == 1 {
+					hdr = gc.Call.Args[0]
+				}
+			}
+			if hdr == nil {
+				c.Bad(rule, core.FnName(fn), "compression handed to DecompressWire: "+core.Describe(comp), core.InstrPos(in),
+					"the compression settings used to read the stream are not the Compression field of a header message: the input is read with settings it does not declare")
+				return
+			}
+			// the header was read from the stream
+			isRead := func(x ssa.Instruction) bool {
+				rc, ok := x.(*ssa.Call)
+				if !ok || !strings.HasSuffix(core.CalleeName(rc), ".ReadMessage") || len(rc.Call.Args) < 2 {
+					return false
+				}
+				for _, o := range core.Origins(rc.Call.Args[len(rc.Call.Args)-1]) {
+					if mi, ok := o.(*ssa.MakeInterface); ok && sameVal(mi.X, hdr) {
+						return true
+					}
+					if sameVal(o, hdr) {
+						return true
+					}
+				}
+				return false
+			}
+			reads := allInstrs(fn, isRead)
+			p := core.FindPath(fn, nil, isInstr(in), isRead)
+			c.Check(len(reads) > 0 && p == nil, rule, core.FnName(fn), "the header was read from the stream before its Compression is used", core.InstrPos(in),
+				"every path to DecompressWire reads the header message first", "the compression settings are taken from a header that was not (on every path) read from this stream").Path = c.P.PathStrings(p)
+			// ... and not assigned in between
+			isAssign := func(x ssa.Instruction) bool {
+				st, ok := x.(*ssa.Store)
+				if !ok {
+					return false
+				}
+				b, nme, ok := core.FieldOf(st.Addr)
+				return ok && nme == "Compression" && sameVal(b, hdr)
+			}
+			var bad []ssa.Instruction
+			for _, st := range allInstrs(fn, isAssign) {
+				for _, rd := range reads {
+					var use ssa.Instruction = in
+					if load != nil {
+						use = load
+					}
+					if core.FindPath(fn, rd, isInstr(st), nil) != nil && core.FindPath(fn, st, isInstr(use), isRead) != nil {
+						bad = []ssa.Instruction{rd, st, use}
+					}
+				}
+			}
+			c.Check(bad == nil, rule, core.FnName(fn), "the declared compression is used as read", core.InstrPos(in),
+				"no assignment to the header's Compression between reading the header and decompressing",
+				"the header's Compression is overwritten after the header was read and before the stream is decompressed: the input is decompressed with settings that are not its own (an optimizer recycling the input header for its output fails on every patch whose algorithm differs from the output's)").Path = c.P.PathStrings(bad)
+		})
+	}
+	c.Floor(rule, "DecompressWire call sites", n, 3)
 }
